@@ -401,7 +401,8 @@ type polInst struct {
 	kind         string
 	vpf          int // 0 none, 1 accepting, 2 rejecting
 	rpf          bool
-	rpfEmpty     bool // the installed presentation closure answers with the empty string
+	rpfEmpty     int // what the installed presentation closure answers: 0 "PRESENTED", 1 the empty string, 2 a text with white space at both ends and runs of blanks / a TAB inside
+	umfFour      bool // the installed (Condition) Unmarshaler answers in the package's own four-slot layout, the Stack expression handed back raw
 	eqf          int // 0 none, 1 -> nil, 2 -> errE, 3 -> an error naming the type of the comparand it was handed
 	umf          bool
 	umfPartial   bool // the installed Unmarshaler answers with a partial slice AND an error
@@ -419,6 +420,10 @@ type polOp struct {
 
 // The marshal and evaluation closures answer as a function of exactly what they are handed, so that
 // "Marshal / Evaluate return that closure's result" can be checked as Marshal(in...) == closure(in...).
+var c14RawStack = stackage.List().Push("raw", "stack").SetReadOnly(true)
+
+var c14Presented = []string{"PRESENTED", "", "  name  =\tvalue \n"}
+
 func c14Marshaler(in ...any) error {
 	if len(in) == 2 && in[0] == "OR" && in[1] == "m" {
 		return errM
@@ -449,7 +454,7 @@ func c14PolOps(isCond bool) []polOp {
 			f(in)
 			if before.ro && n != "SetErr(nil)" && !strings.HasPrefix(n, "SetReadOnly") {
 				// refused: the call was made, the closures stay as they were
-				in.vpf, in.rpf, in.eqf, in.umf, in.maf, in.evl, in.basicRefused, in.umfPartial, in.rpfEmpty = before.vpf, before.rpf, before.eqf, before.umf, before.maf, before.evl, before.basicRefused, before.umfPartial, before.rpfEmpty
+				in.vpf, in.rpf, in.eqf, in.umf, in.maf, in.evl, in.basicRefused, in.umfPartial, in.rpfEmpty, in.umfFour = before.vpf, before.rpf, before.eqf, before.umf, before.maf, before.evl, before.basicRefused, before.umfPartial, before.rpfEmpty, before.umfFour
 			}
 		}})
 	}
@@ -468,18 +473,26 @@ func c14PolOps(isCond bool) []polOp {
 		add("SetValidityPolicy(accept)", func(in *polInst) { in.cd.SetValidityPolicy(vAccept); in.vpf = 1 })
 		add("SetValidityPolicy(reject)", func(in *polInst) { in.cd.SetValidityPolicy(vReject); in.vpf = 2 })
 		add("SetValidityPolicy(nil)", func(in *polInst) { in.cd.SetValidityPolicy(nil); in.vpf = 0 })
-		add("SetPresentationPolicy(fn)", func(in *polInst) { in.cd.SetPresentationPolicy(present); in.rpf, in.rpfEmpty = true, false })
-		add("SetPresentationPolicy(fn answering \"\")", func(in *polInst) { in.cd.SetPresentationPolicy(presentNothing); in.rpf, in.rpfEmpty = true, true })
-		add("SetPresentationPolicy(nil)", func(in *polInst) { in.cd.SetPresentationPolicy(nil); in.rpf, in.rpfEmpty = false, false })
+		add("SetPresentationPolicy(fn)", func(in *polInst) { in.cd.SetPresentationPolicy(present); in.rpf, in.rpfEmpty = true, 0 })
+		add("SetPresentationPolicy(fn answering \"\")", func(in *polInst) { in.cd.SetPresentationPolicy(presentNothing); in.rpf, in.rpfEmpty = true, 1 })
+		add("SetPresentationPolicy(fn answering a text full of white space)", func(in *polInst) {
+			in.cd.SetPresentationPolicy(func(...any) string { return c14Presented[2] })
+			in.rpf, in.rpfEmpty = true, 2
+		})
+		add("SetPresentationPolicy(nil)", func(in *polInst) { in.cd.SetPresentationPolicy(nil); in.rpf, in.rpfEmpty = false, 0 })
 		add("SetEqualityPolicy(nil-result)", func(in *polInst) { in.cd.SetEqualityPolicy(eqNil); in.eqf = 1 })
 		add("SetEqualityPolicy(error-result)", func(in *polInst) { in.cd.SetEqualityPolicy(eqErr); in.eqf = 2 })
 		add("SetEqualityPolicy(result names the comparand's type)", func(in *polInst) { in.cd.SetEqualityPolicy(eqTyped); in.eqf = 3 })
 		add("SetEqualityPolicy()", func(in *polInst) { in.cd.SetEqualityPolicy(); in.eqf = 0 })
 		add("SetEqualityPolicy(nil)", func(in *polInst) { in.cd.SetEqualityPolicy(nil); in.eqf = 0 })
-		add("SetUnmarshaler(fn)", func(in *polInst) { in.cd.SetUnmarshaler(unm); in.umf, in.umfPartial = true, false })
-		add("SetUnmarshaler(partial result + error)", func(in *polInst) { in.cd.SetUnmarshaler(unmPartial); in.umf, in.umfPartial = true, true })
-		add("SetUnmarshaler()", func(in *polInst) { in.cd.SetUnmarshaler(); in.umf, in.umfPartial = false, false })
-		add("SetUnmarshaler(nil)", func(in *polInst) { in.cd.SetUnmarshaler(nil); in.umf, in.umfPartial = false, false })
+		add("SetUnmarshaler(fn)", func(in *polInst) { in.cd.SetUnmarshaler(unm); in.umf, in.umfPartial, in.umfFour = true, false, false })
+		add("SetUnmarshaler(partial result + error)", func(in *polInst) { in.cd.SetUnmarshaler(unmPartial); in.umf, in.umfPartial, in.umfFour = true, true, false })
+		add("SetUnmarshaler(four slots, Stack handed back raw)", func(in *polInst) {
+			in.cd.SetUnmarshaler(func(...any) ([]any, error) { return []any{"CONDITION", "kw", stackage.Eq, c14RawStack}, nil })
+			in.umf, in.umfPartial, in.umfFour = true, false, true
+		})
+		add("SetUnmarshaler()", func(in *polInst) { in.cd.SetUnmarshaler(); in.umf, in.umfPartial, in.umfFour = false, false, false })
+		add("SetUnmarshaler(nil)", func(in *polInst) { in.cd.SetUnmarshaler(nil); in.umf, in.umfPartial, in.umfFour = false, false, false })
 		add("SetEvaluator(fn)", func(in *polInst) { in.cd.SetEvaluator(evl); in.evl = true })
 		add("SetEvaluator(nil)", func(in *polInst) { in.cd.SetEvaluator(nil); in.evl = false })
 		add("SetReadOnly(true)", func(in *polInst) { in.cd.SetReadOnly(true); in.ro = true })
@@ -494,7 +507,7 @@ func c14PolOps(isCond bool) []polOp {
 		if in.kind == "BASIC" {
 			in.basicRefused = true
 		} else {
-			in.rpf, in.rpfEmpty = true, false
+			in.rpf, in.rpfEmpty = true, 0
 		}
 	})
 	add("SetPresentationPolicy(fn answering \"\")", func(in *polInst) {
@@ -502,7 +515,15 @@ func c14PolOps(isCond bool) []polOp {
 		if in.kind == "BASIC" {
 			in.basicRefused = true
 		} else {
-			in.rpf, in.rpfEmpty = true, true
+			in.rpf, in.rpfEmpty = true, 1
+		}
+	})
+	add("SetPresentationPolicy(fn answering a text full of white space)", func(in *polInst) {
+		in.s.SetPresentationPolicy(func(...any) string { return c14Presented[2] })
+		if in.kind == "BASIC" {
+			in.basicRefused = true
+		} else {
+			in.rpf, in.rpfEmpty = true, 2
 		}
 	})
 	add("SetPresentationPolicy(nil)", func(in *polInst) {
@@ -510,7 +531,7 @@ func c14PolOps(isCond bool) []polOp {
 		if in.kind == "BASIC" {
 			in.basicRefused = true // a BASIC stack refuses the call as such and records an error
 		} else {
-			in.rpf, in.rpfEmpty = false, false
+			in.rpf, in.rpfEmpty = false, 0
 		}
 	})
 	add("SetEqualityPolicy(nil-result)", func(in *polInst) { in.s.SetEqualityPolicy(eqNil); in.eqf = 1 })
@@ -518,10 +539,10 @@ func c14PolOps(isCond bool) []polOp {
 	add("SetEqualityPolicy(result names the comparand's type)", func(in *polInst) { in.s.SetEqualityPolicy(eqTyped); in.eqf = 3 })
 	add("SetEqualityPolicy()", func(in *polInst) { in.s.SetEqualityPolicy(); in.eqf = 0 })
 	add("SetEqualityPolicy(nil)", func(in *polInst) { in.s.SetEqualityPolicy(nil); in.eqf = 0 })
-	add("SetUnmarshaler(fn)", func(in *polInst) { in.s.SetUnmarshaler(unm); in.umf, in.umfPartial = true, false })
-	add("SetUnmarshaler(partial result + error)", func(in *polInst) { in.s.SetUnmarshaler(unmPartial); in.umf, in.umfPartial = true, true })
-	add("SetUnmarshaler()", func(in *polInst) { in.s.SetUnmarshaler(); in.umf, in.umfPartial = false, false })
-	add("SetUnmarshaler(nil)", func(in *polInst) { in.s.SetUnmarshaler(nil); in.umf, in.umfPartial = false, false })
+	add("SetUnmarshaler(fn)", func(in *polInst) { in.s.SetUnmarshaler(unm); in.umf, in.umfPartial, in.umfFour = true, false, false })
+	add("SetUnmarshaler(partial result + error)", func(in *polInst) { in.s.SetUnmarshaler(unmPartial); in.umf, in.umfPartial, in.umfFour = true, true, false })
+	add("SetUnmarshaler()", func(in *polInst) { in.s.SetUnmarshaler(); in.umf, in.umfPartial, in.umfFour = false, false, false })
+	add("SetUnmarshaler(nil)", func(in *polInst) { in.s.SetUnmarshaler(nil); in.umf, in.umfPartial, in.umfFour = false, false, false })
 	add("SetMarshaler(fn)", func(in *polInst) { in.s.SetMarshaler(mar); in.maf = true })
 	add("SetMarshaler()", func(in *polInst) { in.s.SetMarshaler(); in.maf = false })
 	add("SetMarshaler(nil)", func(in *polInst) { in.s.SetMarshaler(nil); in.maf = false })
@@ -605,7 +626,7 @@ func c14PolMachine(c *Ctx, kind string) *Machine[*polInst] {
 						bad("cond-string", "String()=%q although Valid() reports an error", got)
 					}
 				case in.rpf:
-					if want := map[bool]string{false: "PRESENTED", true: ""}[in.rpfEmpty]; got != want {
+					if want := c14Presented[in.rpfEmpty]; got != want {
 						bad("cond-string", "String()=%q want the presentation closure's result %q", got, want)
 					}
 				case builtinValid:
@@ -650,7 +671,13 @@ func c14PolMachine(c *Ctx, kind string) *Machine[*polInst] {
 				}
 				u, uerr := in.cd.Unmarshal()
 				tu, _ := in.ct.Unmarshal()
-				if in.umf {
+				if in.umf && in.umfFour {
+					if uerr != nil || len(u) != 4 || u[0] != "CONDITION" || u[1] != "kw" || u[2] != any(stackage.Eq) {
+						bad("cond-unmarshal", "Unmarshal()=%v,%v want the closure's own four values", u, uerr)
+					} else if st, isStack := u[3].(stackage.Stack); !isStack || st.Addr() != c14RawStack.Addr() {
+						bad("cond-unmarshal", "Unmarshal() hands out %T in the fourth slot, want the very Stack the closure put there (the closure's result is the result)", u[3])
+					}
+				} else if in.umf {
 					if (uerr != nil) != in.umfPartial || (in.umfPartial && uerr != errU) || len(u) != 1 || u[0] != "UNMARSHALED" {
 						bad("cond-unmarshal", "Unmarshal()=%v,%v want the closure's result (slice and error exactly as the closure hands them back; partial+error variant: %v)", u, uerr, in.umfPartial)
 					}
@@ -661,7 +688,13 @@ func c14PolMachine(c *Ctx, kind string) *Machine[*polInst] {
 				// Condition asks its closure
 				if pu, perr := stackage.List().Push("x", in.cd).Unmarshal(); len(pu) == 3 {
 					row, _ := pu[2].([]any)
-					if in.umf && !in.umfPartial && (len(row) != 1 || row[0] != "UNMARSHALED") {
+					if in.umf && in.umfFour {
+						if len(row) != 4 {
+							bad("cond-unmarshal-nested", "as an element of a LIST: the LIST's Unmarshal hands out %v for it, want the four values of the Condition's own closure", pu[2])
+						} else if st, isStack := row[3].(stackage.Stack); !isStack || st.Addr() != c14RawStack.Addr() {
+							bad("cond-unmarshal-nested", "as an element of a LIST: the fourth value of the Condition's row is %T, want the very Stack its closure put there", row[3])
+						}
+					} else if in.umf && !in.umfPartial && (len(row) != 1 || row[0] != "UNMARSHALED") {
 						bad("cond-unmarshal-nested", "as an element of a LIST: the LIST's Unmarshal hands out %v for it (err %v), want the result of the Condition's own unmarshal closure", pu[2], perr)
 					} else if !in.umf && !reflect.DeepEqual(pu[2], any(tu)) {
 						bad("cond-unmarshal-nested", "as an element of a LIST: the LIST's Unmarshal hands out %v for it, want the built-in row %v", pu[2], tu)
@@ -695,7 +728,7 @@ func c14PolMachine(c *Ctx, kind string) *Machine[*polInst] {
 			}
 			wantStr := in.tw.String()
 			if in.rpf {
-				wantStr = map[bool]string{false: "PRESENTED", true: ""}[in.rpfEmpty]
+				wantStr = c14Presented[in.rpfEmpty]
 			}
 			if in.vpf == 2 || in.kind == "BASIC" {
 				wantStr = ""
@@ -794,7 +827,7 @@ func c14PolMachine(c *Ctx, kind string) *Machine[*polInst] {
 		},
 		Key: func(in *polInst) string {
 			if isCond {
-				return stackage.VerifDump(in.cd).Key(false) + fmt.Sprint("|model:", in.vpf, in.rpf, in.rpfEmpty, in.eqf, in.umf, in.umfPartial, in.evl, in.ro)
+				return stackage.VerifDump(in.cd).Key(false) + fmt.Sprint("|model:", in.vpf, in.rpf, in.rpfEmpty, in.eqf, in.umf, in.umfPartial, in.umfFour, in.evl, in.ro)
 			}
 			return stackage.VerifDump(in.s).Key(false) + fmt.Sprint("|model:", in.vpf, in.rpf, in.rpfEmpty, in.eqf, in.umf, in.umfPartial, in.maf, in.ro, in.basicRefused)
 		},
